@@ -1022,6 +1022,16 @@ def _run(sc, S, obs):
         except BaseException as e:  # noqa
             obs['exit_outcome'] = 'raise ' + repr(e)[:200]
         obs['exit_virtual_s'] = round(S.now - t_exit0, 4)
+        if obs.get('_open_gens'):
+            # the with-block has been left while the caller still holds a lazy call's generator: nothing of the pool runs any more
+            try:
+                if any(t.started and not t.done for t in S.threads[1:]):
+                    sim.time_shim.sleep(2.0)
+            except (sim.Stuck, sim.SimAbort):
+                raise
+            except BaseException:  # noqa
+                pass
+            obs['alive_at_exit_with_open_generator'] = sorted(t.role for t in S.threads[1:] if t.started and not t.done)
         # lazy calls that were left open: the caller drops the generators now (their finally clauses run)
         for g in obs.pop('_open_gens', []):
             try:
